@@ -20,7 +20,7 @@ import vlib
 
 MODULE = "RenderCtxChildren"
 CORE = ["c1", "c0", "c2", "onceA", "onceF", "flush", "join", "raw"]
-ALL = CORE + ["fn", "fo", "cw", "nop", "script", "json"]
+ALL = CORE + ["onceFb", "fn", "fo", "cw", "nop", "script", "json"]
 # hand-written callees that render their children into the given writer (fn) / a writer of their own (fo: strings.Builder,
 # fh: templ.ToGoHTML), below and above generated layers; no Once/Flush here (ToGoHTML's buffer is not bounded)
 WRITERS = ["c1", "c0", "fn", "fo", "fh"]
@@ -60,7 +60,7 @@ def cfg(base, kinds, nodes, depth, repaired=None, first=None):
 def call_src(k, pid):
     return {
         "c1": '@lib.C1("%s")', "c0": '@lib.C0("%s")', "c2": '@lib.C2("%s")', "cw": '@lib.Cw("%s")',
-        "fn": '@lib.Fn("%s")', "fo": '@lib.Fo("%s")', "fh": '@lib.Fh("%s")', "onceA": "@lib.HA.Once()", "onceF": "@lib.HF.Once()", "flush": "@templ.Flush()",
+        "fn": '@lib.Fn("%s")', "fo": '@lib.Fo("%s")', "fh": '@lib.Fh("%s")', "onceA": "@lib.HA.Once()", "onceF": "@lib.HF.Once()", "onceFb": "@lib.HF.Once()", "flush": "@templ.Flush()",
         "join": '@templ.Join(lib.Cj("%s.91"), lib.Cj("%s.92"))', "raw": "@templ.Raw(\"<x-raw id='%s'></x-raw>\")",
         "nop": "@templ.NopComponent", "script": '@lib.Scr("%s")', "json": '@templ.JSONScript("%s", 1)',
     }[k].replace("%s", pid)
